@@ -75,6 +75,7 @@ func vxSetEnv(k, v string)
 func vxTraceMode(on bool)
 func vxTraceStatSeq(seq string)
 func vxTraceStatFork(on bool)
+func vxTraceStatRule(tmpdir string)
 func vxWalkExtra(path string)
 func vxClockSymbolic(on bool)
 func vxCmdFree(writes, exit bool)
